@@ -84,6 +84,7 @@ type vC09HWorld struct {
 	// the clock: simulated by ageing the destination (unit = 1 minute), or the real one (unit = vC09HUnit, the
 	// simulated instant n is the real instant real0 + (n - t0) units; reports are stamped half a unit later)
 	realClock bool
+	unit      time.Duration // real clock: the real time one simulated instant stands for
 	real0     time.Time
 	t0        int64
 	shapeSeed uint64
@@ -248,12 +249,16 @@ func (w *vC09HWorld) unexecuted() []vC09HMsg {
 	return out
 }
 
+// Real-clock histories: one simulated instant is one unit of real time; a cycle must make its observations inside the
+// first half of its unit. The unit is 100 ms on an idle machine and grows with the scheduling latency measured when the
+// part starts (vSchedScale); a history that still misses a slot is run again with the unit doubled (twice at most)
+// before it is given up as discarded-timing.
 const vC09HUnit = 100 * time.Millisecond
 
 // the timestamp a report committed at instant n carries
 func (w *vC09HWorld) stamp(n int64) time.Time {
 	if w.realClock {
-		return w.real0.Add(time.Duration(n-w.t0)*vC09HUnit + vC09HUnit/2)
+		return w.real0.Add(time.Duration(n-w.t0)*w.unit + w.unit/2)
 	}
 	return w.cycleReal.Add(-time.Duration(w.cur.now-n) * time.Minute)
 }
@@ -262,9 +267,9 @@ func (w *vC09HWorld) stamp(n int64) time.Time {
 func (w *vC09HWorld) lowerBound(ts time.Time) int64 {
 	var lb int64
 	if w.realClock {
-		x := ts.Sub(w.real0) - vC09HUnit/2 // stamp(n) >= ts  <=>  (n - t0) units >= x
-		q := int64(x / vC09HUnit)
-		if x > 0 && x%vC09HUnit != 0 {
+		x := ts.Sub(w.real0) - w.unit/2 // stamp(n) >= ts  <=>  (n - t0) units >= x
+		q := int64(x / w.unit)
+		if x > 0 && x%w.unit != 0 {
 			q++
 		}
 		lb = w.t0 + q
@@ -438,13 +443,13 @@ func (d *vC09HDon) cycle(ctx context.Context, w *vC09HWorld) (res vC09HCycle, fa
 		// the cycle runs in the first half of the unit that stands for the scripted instant; when the machine is too
 		// slow for that slot the clock is simply later (more ticks) - nothing has run yet
 		for {
-			slot := w.real0.Add(time.Duration(w.cur.now-w.t0) * vC09HUnit)
-			if late := time.Since(slot); late > vC09HUnit/10 {
-				w.tick(int64(late/vC09HUnit) + 1)
+			slot := w.real0.Add(time.Duration(w.cur.now-w.t0) * w.unit)
+			if late := time.Since(slot); late > w.unit/10 {
+				w.tick(int64(late/w.unit) + 1)
 				continue
 			}
-			time.Sleep(time.Until(slot.Add(vC09HUnit / 20)))
-			if time.Since(slot) <= vC09HUnit/4 {
+			time.Sleep(time.Until(slot.Add(w.unit / 20)))
+			if time.Since(slot) <= w.unit/4 {
 				break
 			}
 			w.tick(1)
@@ -464,9 +469,9 @@ func (d *vC09HDon) cycle(ctx context.Context, w *vC09HWorld) (res vC09HCycle, fa
 		oc, f := d.roundOnce(ctx)
 		res.rounds = k
 		if k == 1 && w.realClock {
-			slot := w.real0.Add(time.Duration(w.cur.now-w.t0) * vC09HUnit)
+			slot := w.real0.Add(time.Duration(w.cur.now-w.t0) * w.unit)
 			res.obsTook = d.obsDone.Sub(w.cycleReal)
-			if w.cycleReal.Before(slot) || d.obsDone.After(slot.Add(vC09HUnit/2-vC09HUnit/10)) {
+			if w.cycleReal.Before(slot) || d.obsDone.After(slot.Add(w.unit/2-w.unit/10)) {
 				return res, "timing"
 			}
 		}
@@ -528,6 +533,10 @@ func TestVerif_C09_cycles(t *testing.T) {
 	for h := range seeds {
 		seeds[h] = r.U64()
 	}
+	unit := vScaled(vC09HUnit).Round(10 * time.Millisecond)
+	if unit > 5*vC09HUnit {
+		unit = 5 * vC09HUnit
+	}
 	// every third history runs on the real clock (it sleeps): those run beside the others, a few at a time
 	var wg sync.WaitGroup
 	sem := make(chan struct{}, 10)
@@ -540,12 +549,17 @@ func TestVerif_C09_cycles(t *testing.T) {
 			defer wg.Done()
 			sem <- struct{}{}
 			defer func() { <-sem }()
-			cases[h] = vC09HHistory(vNewRand(seeds[h]), h, true)
+			for try := 0; try < 3; try++ {
+				cases[h] = vC09HHistory(vNewRand(seeds[h]), h, true, unit<<try)
+				if cases[h].cls != "discarded-timing" {
+					break
+				}
+			}
 		}(h)
 	}
 	for h := 0; h < nHist; h++ {
 		if h%3 != 2 {
-			cases[h] = vC09HHistory(vNewRand(seeds[h]), h, false)
+			cases[h] = vC09HHistory(vNewRand(seeds[h]), h, false, time.Minute)
 		}
 	}
 	wg.Wait()
@@ -559,13 +573,11 @@ type vC09HLate struct {
 	ms  []vC09HMsg
 }
 
-func vC09HHistory(hr *vRand, h int, realClock bool) vC09HCase {
+func vC09HHistory(hr *vRand, h int, realClock bool, unit time.Duration) vC09HCase {
 	ctx := context.Background()
 	V := int64(vPick(hr, []int{30, 60, 240, 480}))
-	unit := time.Minute
 	if realClock {
 		V = int64(vPick(hr, []int{5, 8, 12}))
-		unit = vC09HUnit
 	}
 	nch := hr.Range(1, 3)
 	// what varies between the cycles of this history: everything, or one aspect only
@@ -575,7 +587,7 @@ func vC09HHistory(hr *vRand, h int, realClock bool) vC09HCase {
 	}
 	on := func(a string) bool { return aspect == "all" || aspect == a || (aspect == "pinned" && (a == "landing" || a == "readiness")) }
 	faulty := vPick(hr, []string{"none", "none", "silent", "garbage", "stale"})
-	w := &vC09HWorld{r: hr, V: V, known: map[cciptypes.ChainSelector]bool{}, realClock: realClock,
+	w := &vC09HWorld{r: hr, V: V, known: map[cciptypes.ChainSelector]bool{}, realClock: realClock, unit: unit,
 		fixedLen: vEnvInt("VERIF_C09_PROBE_LEN", 0), dataLen: vEnvInt("VERIF_C09_PROBE_DATA", 0),
 		msgs: map[cciptypes.ChainSelector]map[uint64]cciptypes.Message{}, ordered: map[vC09HMsg]bool{}, bySender: map[string]vC09HMsg{},
 		next: map[cciptypes.ChainSelector]uint64{}, hc: vNewHomeChain(),
@@ -636,7 +648,7 @@ func vC09HHistory(hr *vRand, h int, realClock bool) vC09HCase {
 		return broken(fmt.Sprintf("discovery round: %s state %q", f, oc.State))
 	}
 	w.reads = nil
-	w.real0 = time.Now().UTC().Add(vC09HUnit) // the scripted instant t0
+	w.real0 = time.Now().UTC().Add(unit) // the scripted instant t0
 
 	// the history starts with a backlog of reports committed at different times
 	for k := hr.Range(1, 3); k > 0; k-- {
